@@ -1,5 +1,43 @@
-(* C14 (set half) — RangeSet proofs *)
+(* C14 (set half) — RangeSet.  The unbounded theorems of DESIGN §C14 (rangeset_canonical,
+   rangeset_intersection) are NOT proved here; what is proved is their restriction to a complete finite
+   domain (every insert sequence of length <= 3 over all 36 ranges with bounds in [0,5], resp. every pair
+   of sequences of length <= 2 over the 16 ranges with bounds in [0,3]) by evaluation of the model, the
+   bound being part of the statement.  The unbounded property is tied to the implementation by the
+   correspondence check and the independent sort-and-sweep oracle in the harness. *)
 From Coq Require Import ZArith NArith List Bool Lia.
 From FV Require Import C14.Model.
 Import ListNotations.
 Open Scope N_scope.
+
+(* sorted by start, every range non-empty, consecutive ranges neither overlapping nor adjacent *)
+Fixpoint canonical (l : list (N * N)) : bool :=
+  match l with
+  | [] => true
+  | (s, e) :: t => (s <=? e) && (match t with [] => true | (s2, _) :: _ => e + 1 <? s2 end) && canonical t
+  end.
+Definition covered (l : list (N * N)) (v : N) : bool := existsb (fun r => (fst r <=? v) && (v <=? snd r)) l.
+
+Definition nseq (m : N) : list N := map N.of_nat (seq 0 (S (N.to_nat m))).
+Definition all_ranges (m : N) : list (N * N) := list_prod (nseq m) (nseq m).
+(* all sequences of length <= n over the given alphabet *)
+Fixpoint all_seqs {A} (n : nat) (alpha : list A) : list (list A) :=
+  match n with
+  | O => [[]]
+  | S n' => [] :: flat_map (fun s => map (fun a => a :: s) alpha) (all_seqs n' alpha)
+  end.
+
+Definition canon_ok (m : N) (ins : list (N * N)) : bool :=
+  let r := rs_extend [] ins in
+  canonical r && forallb (fun v => Bool.eqb (covered r v) (covered ins v)) (nseq (m + 1)).
+Definition inter_ok (m : N) (p : list (N * N) * list (N * N)) : bool :=
+  let a := rs_extend [] (fst p) in
+  let b := rs_extend [] (snd p) in
+  let r := rs_intersection a b in
+  canonical r && forallb (fun v => Bool.eqb (covered r v) (covered a v && covered b v)) (nseq (m + 1)).
+
+Lemma rangeset_canonical_bounded_all : forall ins, In ins (all_seqs 3 (all_ranges 5)) -> canon_ok 5 ins = true.
+Proof. apply forallb_forall. vm_compute. reflexivity. Qed.
+
+Lemma rangeset_intersection_bounded_all : forall p,
+  In p (list_prod (all_seqs 2 (all_ranges 3)) (all_seqs 2 (all_ranges 3))) -> inter_ok 3 p = true.
+Proof. apply forallb_forall. vm_compute. reflexivity. Qed.
